@@ -149,4 +149,45 @@ theorem runTypes_noParent (sh : Bool) (rs : List TypeRec) (st : TStore) (cells :
     rw [stepType_noParent sh st cells r (h r (by simp))]
     exact ih _ _ (fun x hx => h x (by simp [hx]))
 
+/-! ### PRIVATE bindings -/
+
+theorem stepTypeD_false (sh : Bool) (st : TStore) (cells : Cells) (r : TypeRec) :
+    stepTypeD false sh st cells r = stepType sh st cells r := by
+  simp [stepTypeD, stepType, inheritTable]
+
+theorem runTypesD_false (sh : Bool) (rs : List TypeRec) (st : TStore) (cells : Cells) :
+    runTypesD false sh st cells rs = runTypes sh st cells rs := by
+  induction rs generalizing st cells with
+  | nil => rfl
+  | cons r rs ih => simp only [runTypesD, runTypes, stepTypeD_false, ih]
+
+/-- without PRIVATE bindings anywhere (in the records and in the store) skipping them changes nothing -/
+theorem runTypesD_noPrivs (sh : Bool) (rs : List TypeRec) (st : TStore) (cells : Cells)
+    (h : ∀ r ∈ rs, r.privs = []) (hst : ∀ e s, storeGet st e = some s → s.privs = []) :
+    runTypesD true sh st cells rs = runTypes sh st cells rs := by
+  induction rs generalizing st cells with
+  | nil => rfl
+  | cons r rs ih =>
+    have hp : statePrivs (parentState st r) = [] := by
+      unfold parentState
+      cases hr : r.parent with
+      | none => rfl
+      | some p =>
+        simp only
+        cases hs : storeGet st p with
+        | none => rfl
+        | some s => simpa [statePrivs] using hst p s hs
+    have hstep : stepTypeD true sh st cells r = stepType sh st cells r := by
+      simp [stepTypeD, stepType, inheritTable, hp]
+    simp only [runTypesD, runTypes, hstep]
+    apply ih _ _ (fun x hx => h x (List.mem_cons_of_mem _ hx))
+    intro e s hs
+    simp only [stepType, storeGet] at hs
+    by_cases he : r.ent = e
+    · simp only [he, ↓reduceIte, Option.some.injEq] at hs
+      subst hs
+      simp [hp, h r List.mem_cons_self]
+    · simp only [he, ↓reduceIte] at hs
+      exact hst e s hs
+
 end Ford.Scope
